@@ -13,18 +13,16 @@ use crate::selector::{Selector, SelectorList};
 pub(crate) struct ExtendedSelector(Rc<RefCell<SelectorList>>);
 
 impl PartialEq for ExtendedSelector {
+    // Selectors of different style rules are different entries even if they are
+    // written the same, so equality is identity, consistent with `Hash` below
     fn eq(&self, other: &Self) -> bool {
-        self.0 == other.0
+        Rc::ptr_eq(&self.0, &other.0)
     }
 }
 
 impl Eq for ExtendedSelector {}
 
 impl Hash for ExtendedSelector {
-    // We hash the ptr here for efficiency.
-    // TODO: is this an issue? it probably is,
-    // but I haven't managed to find a test case
-    // that exhibits it.
     fn hash<H: Hasher>(&self, state: &mut H) {
         ptr::hash(&*self.0, state);
         // in case we need to hash the actual value:
